@@ -36,6 +36,9 @@ FORM_FUNCS = {"anf": "to_anf", "cnf": "to_cnf", "dnf": "to_dnf", "nnf": "to_nnf"
 
 
 def run(ctx: Ctx):
+    from .. import memo as _memo
+
+    ctx.section(_memo.check_memo_keys, ctx, ('tools.',))
     repo = ctx.repo
     check_bool_expression(ctx, repo.func(f"{B}.convert_to_bool_expression"))
     check_dimacs(ctx, repo.func(f"{B}.convert_to_dimacs"))
